@@ -983,6 +983,9 @@ class Engine(object):
             if isinstance(tgt, ast.Subscript):
                 obj = self.ev(tgt.value, frame)
                 idx = self.ev_index(tgt.slice, frame)
+                if isinstance(obj, PObj) and isinstance(obj.fields.get('__delitem__'), PExt):
+                    self.call(obj.fields['__delitem__'], [idx], {}, s)
+                    continue
                 if isinstance(obj, PDict) and not is_sym(idx):
                     if idx not in obj.val:
                         raise PyRaise(PExc(KeyError, tag='del'))
